@@ -1030,6 +1030,29 @@ def gen_consts(poly_path, pc_path) -> str:
         if not (isinstance(val, list) and all(isinstance(x, int) and 0 <= x < 100 for x in val)):
             raise Unsupported(f"TACTICS_ORDER in {label}")
         out += f"Definition TACTICS_ORDER_{label} : list nat := [{'; '.join(map(str, val))}].\n"
+    # numeric module constants (a float literal is the exact rational it denotes)
+    from fractions import Fraction
+    import os as _os
+    ser_path = _os.path.join(_os.path.dirname(poly_path), "serializer.py")
+    wanted = [(poly_path, "REFINEMENT_TOLERANCE"), (ser_path, "float_closeness_relative_tolerance"),
+              (ser_path, "float_closeness_absolute_tolerance")]
+    out += "From Coq Require Import QArith.\n"
+    for path, name in wanted:
+        mod = ast.parse(open(path).read())
+        val = None
+        for n in mod.body:
+            tgt = None
+            if isinstance(n, ast.Assign) and len(n.targets) == 1 and isinstance(n.targets[0], ast.Name):
+                tgt = n.targets[0].id
+            elif isinstance(n, ast.AnnAssign) and isinstance(n.target, ast.Name) and n.value is not None:
+                tgt = n.target.id
+            if tgt == name:
+                val = ast.literal_eval(n.value)
+        if not isinstance(val, (int, float)) or isinstance(val, bool) or val != val or val in (float("inf"), float("-inf")):
+            raise Unsupported(f"numeric module constant {name} in {path}")
+        fr = Fraction(float(val))
+        num = f"({fr.numerator})" if fr.numerator < 0 else str(fr.numerator)
+        out += f"Definition {name} : Q := Qmake {num} {fr.denominator}.\n"
     return out
 
 
